@@ -192,7 +192,7 @@ def _mk(sim, variant=None):
         mesh = patches.real_mesh("QUAD4", coords, connect)
         mat = Models.Elastic.Isotropic(2, E=3.0, v=0.25, planeStress=False)
         PF = Models.PhaseField
-        kw = dict(solver=PF.SolverType[variant]) if variant else {}
+        kw = dict(solver=PF.SolverType[variant]) if variant and variant != "unload" else {}
         s = Simulations.PhaseField(mesh, PF(mat, PF.SplitType.Miehe, PF.ReguType.AT2, Gc=1.0, l0=0.5, **kw))
     elif sim == "HyperElastic":
         coords, connect = patches.star_patch("QUAD4")
@@ -242,7 +242,8 @@ def _bc(s, sim, k):
         s.add_neumann(n1, [-0.01 * (k + 1)], ["y"])
     elif sim == "PhaseField":
         s.add_dirichlet(n0, [0, 0], ["x", "y"])
-        s.add_dirichlet(n1, [0.05 * (k + 1)], ["x"])
+        amp = {0: 0.30, 1: 0.05, 2: 0.15}.get(k, 0.05 * (k + 1)) if getattr(s, "_vt_unload", False) else 0.05 * (k + 1)
+        s.add_dirichlet(n1, [amp], ["x"])
     else:
         s.add_dirichlet(n0, [0, 0], ["x", "y"])
         s.add_dirichlet(n1, [0.01 * (k + 1)], ["x"])
@@ -259,6 +260,10 @@ def _state(s):
     if isinstance(z, dict):
         for k, v in z.items():
             out[f"z:{k}"] = np.asarray(v).copy()
+    # committed history field of the phase-field driving energy (the irreversibility memory of the History solver)
+    h = getattr(s, "_PhaseField__old_psiP_e_pg", None)
+    if h is not None and np.asarray(h).size:
+        out["z:psiP"] = np.asarray(h).copy()
     return out
 
 
@@ -345,6 +350,12 @@ def ob_roundtrip(sim, mode, dynamic, variant=None):
     tmp = tempfile.mkdtemp(prefix="vt_c15_")
     try:
         s = _mk(sim, variant)
+        # variant "unload" (phase field, History solver): staggered scheme iterated on the damage (convOption=0: no energy evaluation refreshes the trial history field at the end of a
+        # pass), load path up / down / up -- the committed history field then differs from the driving energy of the current displacement
+        solve_kw = dict(tolConv=1e-2, maxIter=50, convOption=0) if variant == "unload" else {}
+        if variant == "unload":
+            s._vt_unload = True
+        solve = lambda: s.Solve(**solve_kw)
         if mode in ("disk", "switch"):
             s.folder = os.path.join(tmp, "A")
         if dynamic == "parabolic" and sim == "WeakForms":
@@ -362,7 +373,7 @@ def ob_roundtrip(sim, mode, dynamic, variant=None):
         hist = []
         for k in range(3):
             _bc(s, sim, k)
-            s.Solve()
+            solve()
             hist.append(f"Solve#{k}")
             s.Save_Iter()
             hist.append(f"Save_Iter#{k}")
@@ -383,7 +394,7 @@ def ob_roundtrip(sim, mode, dynamic, variant=None):
         if not dynamic and sim in ("Elastic", "InElastic", "HyperElastic", "PhaseField"):
             s.Set_Iter(0)
             _bc(s, sim, 1)
-            s.Solve()
+            solve()
             now = _state(s)
             for kk in [q for q in now if q.startswith("u:")]:
                 e = float(np.abs(now[kk] - saved_state[1][kk]).max() / (np.abs(saved_state[1][kk]).max() + 1e-30))
@@ -444,7 +455,7 @@ def ob_roundtrip(sim, mode, dynamic, variant=None):
             s.Set_Iter(0)
             restored = _state(s)
             _bc(s, sim, 1)
-            s.Solve()
+            solve()
             now = _state(s)
             for key in restored:
                 if key.startswith("z:") and not np.array_equal(restored[key], now[key]):
@@ -467,10 +478,30 @@ def ob_roundtrip(sim, mode, dynamic, variant=None):
                     e = float(np.abs(np.asarray(y) - x).max()) if isinstance(y, np.ndarray) and y.shape == x.shape else float("inf")
                     raise Refuted(f"{sim}{'/' + variant if variant else ''}/{mode}: Set_Iter(0) followed by Save_Iter() (no solve in between) stores a '{key}' that differs from iteration 0 (max difference {e:.3e}): "
                                   f"a trial quantity of the last solve is committed", cex=dict(history=hist, key=key), signature=f"roundtrip:{sim}:resave:{key}", replay=dict(confirmed=True, max_diff=e))
+        # (3d) a query is a read: restore an iteration, ask for every advertised result, save again without solving: what is stored is that iteration again
+        for it in (0, 1):
+            s.Set_Iter(it)
+            for name_ in s.Results_Available():           # named results only (assembling the system is how the trial fields are computed: not a query)
+                try:
+                    s.Result(name_)
+                    s.Result(name_, nodeValues=False)
+                except Exception:
+                    pass
+            s.Save_Iter()
+            hist.append(f"Set_Iter({it}); every Result(); Save_Iter")
+            again = _deep_results(s, -1)
+            for key, x in saved_results[it].items():
+                if isinstance(x, np.ndarray) and x.dtype.kind in "fc" and x.size > 1:
+                    y = again.get(key)
+                    if not (isinstance(y, np.ndarray) and y.shape == x.shape and np.array_equal(x, y)):
+                        e = float(np.abs(np.asarray(y) - x).max()) if isinstance(y, np.ndarray) and y.shape == x.shape else float("inf")
+                        raise Refuted(f"{sim}{'/' + variant if variant else ''}/{mode}: Set_Iter({it}), a query of every advertised result, then Save_Iter() (no solve) stores a '{key}' that differs from "
+                                      f"iteration {it} (max difference {e:.3e}): asking for a result changes the state of the simulation", cex=dict(history=hist, key=key), signature=f"roundtrip:{sim}:query:{key}",
+                                      replay=dict(confirmed=True, max_diff=e))
         # (4) restore an old iteration, solve and save again: the stored iterations 0..2 are still what they were
         s.Set_Iter(0)
         _bc(s, sim, 5)
-        s.Solve()
+        solve()
         s.Save_Iter()
         for i in range(3):
             ok, why = _eq_results(saved_results[i], _deep_results(s, i))
@@ -778,6 +809,9 @@ def build(tier, seed):
             obs.append(Ob(f"C15.roundtrip.{sim}.parabolic", ob_roundtrip, (sim, "memory", "parabolic"), "X", (f"{SIMS[sim]}::{sim}.Save_Iter", f"{SIMS[sim]}::{sim}.Set_Iter"),
                           bound="3 steps of the theta scheme on a damped elastic problem, in-memory history", clause="the speed carried by a first-order scheme is restored with the displacement", timeout=300))
         if sim == "PhaseField":
+            obs.append(Ob("C15.roundtrip.PhaseField.unload", ob_roundtrip, (sim, "memory", False, "unload"), "X", (f"{SIMS[sim]}::{sim}.Save_Iter", f"{SIMS[sim]}::{sim}.Set_Iter", f"{SIMS[sim]}::{sim}.Result"),
+                          bound="load / unload / reload on a small mesh, History solver, staggered scheme converged on the damage (convOption=0), in-memory history", timeout=300,
+                          clause="the committed history field is restored with the iteration it belongs to; a query of results is a read: it changes nothing a later Save_Iter stores"))
             for variant in ("HistoryDamage", "BoundConstrain"):
                 obs.append(Ob(f"C15.roundtrip.{sim}.{variant}", ob_roundtrip, (sim, "memory", False, variant), "X", (f"{SIMS[sim]}::{sim}.Save_Iter", f"{SIMS[sim]}::{sim}.Set_Iter"),
                               bound="3 solve/save steps on a small mesh, in-memory history, non-default irreversibility solver", clause="restore / read / stored-iteration immutability; results of a restored iteration do not depend on the previous state", timeout=300))
